@@ -13,7 +13,7 @@ from ..engine import Finding, with_timeout, Timeout
 
 ID = 'C10'
 TITLE = 'drange enumerates exactly t0, t0+bump, ... up to t1 for every kind of bump'
-LEAN_FILES = ['Basic', 'Civil', 'DRange', 'DRangeDriver', 'DRangeLemmas', 'CivilLemmas', 'CivilGreg', 'DRangeMonth', 'DRangeBump', 'DRangeBday', 'C10',
+LEAN_FILES = ['Basic', 'Civil', 'DRange', 'DRangeDriver', 'DateRange', 'DateParse', 'DRangeLemmas', 'CivilLemmas', 'CivilGreg', 'DRangeMonth', 'DRangeBump', 'DRangeBday', 'C10',
               # the step is tied to the C09 model of dt_bump and the Gregorian model of C04/C09:
               'Greg', 'GenTypes', 'Bump', 'PygGen', 'Sweep', 'GregLemmas', 'GregPeriod', 'BumpLemmas', 'MonthLemmas', 'TokenLemmas', 'C09']
 GENERATED = ['PygGen.Ym', 'PygGen.BDay', 'PygGen.Tables']
@@ -29,6 +29,7 @@ ASSUMPTIONS = ['dateutil.rrule(freq, interval=k>0, dtstart, until) enumerates dt
 D = datetime.datetime
 TD = datetime.timedelta
 DAY = TD(1)
+TMIN = D(1900, 1, 1)
 UNIT_TD = dict(d=TD(1), w=TD(7), h=TD(hours=1), n=TD(minutes=1), s=TD(seconds=1))
 MIXED = ['1m-30d', '1m-4w', '1b-1d', '-1m30d', '1d-1b', '1y-12m', '1q-3m1d', '-1w6d', '2d-1b']
 COMPOUNDS = ['1w1d', '1m1d', '1y1m', '1m-1d', '2d12h', '1h30n', '1q1m', '1b1d', '1m1b', '2b1d', '1y1q1m1w1d', '1d1h1n1s', '3d-1h', '1n30s',
@@ -221,7 +222,136 @@ def line_of(spec):
     return '(drange run %d %d %s)' % (dt2us(spec['t0']), dt2us(spec['t1']), enc_bump(spec['bump']))
 
 
+# ---- endpoints as other python objects denoting the same instant (round k3; reviews4 v3 §C10.2-3, open since r3): `date_range` resolves
+# them with dt(t).  kinds valid for any instant / for midnight only
+KINDS_ANY = ['dt', 'ts', 'np', 'iso']
+KINDS_MIDNIGHT = ['date', 'npD', 'ymd', 'isod']
+
+
+def as_kind(kind, t):
+    import pandas as pd
+    if kind == 'dt':
+        return t
+    if kind == 'ts':
+        return pd.Timestamp(t)
+    if kind == 'np':
+        return np.datetime64(t, 'us')
+    if kind == 'iso':
+        return t.isoformat(' ')
+    assert t == D(t.year, t.month, t.day), 'midnight only'
+    if kind == 'date':
+        return t.date()
+    if kind == 'npD':
+        return np.datetime64(t.date(), 'D')
+    if kind == 'ymd':
+        return t.year * 10000 + t.month * 100 + t.day
+    if kind == 'isod':
+        return t.strftime('%Y-%m-%d')
+    raise ValueError(kind)
+
+
+def as_datetime(t):
+    """an element of the result as a datetime (a pd.Timestamp start yields Timestamps; pandas cannot subtract year 1)"""
+    return t.to_pydatetime() if hasattr(t, 'to_pydatetime') else t
+
+
+def respell_endpoints(rng, spec, line):
+    """now and then the same call with the endpoints given as date / Timestamp / np.datetime64 / ISO string / yyyymmdd int and a timedelta bump as
+    pd.Timedelta; the years stay in pandas' nanosecond range for Timestamps"""
+    if not line.startswith('(drange run ') or not (1700 < spec['t0'].year < 2250 and 1700 < spec['t1'].year < 2250):
+        return None
+    ks = []
+    for t in (spec['t0'], spec['t1']):
+        mid = t == D(t.year, t.month, t.day)
+        ks.append(rng.choice(KINDS_ANY + (KINDS_MIDNIGHT * 2 if mid else [])))
+    if ks == ['dt', 'dt']:
+        ks[rng.randrange(2)] = 'ts'
+    b = enc_bump(spec['bump'])
+    if b.startswith('(td ') and rng.random() < 0.5:
+        b = '(tdpd ' + b[4:]
+    return '(drange runas %s %s %d %d %s)' % (ks[0], ks[1], dt2us(spec['t0']), dt2us(spec['t1']), b)
+
+
+# ---- round k3: `date_range` endpoint resolution (anchor _drange.py:210-264; open since r3): endpoints as drange is handed them - None, a
+# BUMP (int < 1500, timedelta, period string: relative to today / to the other endpoint) or a date (datetime, or a number >= 1500 read by dt:
+# a year, a yyyymmdd integer).  `today` = dt(0) is pinned by the runner.  An endpoint spec is (wire text, day-equivalent of a bump or None)
+def _ep_bump(rng):
+    r = rng.random()
+    if r < 0.3:
+        n = rng.choice([-400, -90, -30, -10, -7, -1, 0, 1, 5, 10, 30, 100, 365, 1499])
+        return '(b (int %d))' % n, n
+    if r < 0.45:
+        us = rng.choice([-10, -1, 1, 3, 36]) * 86400 * 10 ** 6 + rng.choice([0, 0, 12 * 3600 * 10 ** 6, 1])
+        return '(b (td %d))' % us, us / 86400e6
+    n, u = rng.choice([-60, -10, -3, -1, 1, 2, 10, 40]), rng.choice('bdwmy' if rng.random() < 0.8 else 'hq')
+    n = n if u not in 'y' else max(-3, min(3, n))
+    txt = '%d%s' % (n, u) if rng.random() < 0.85 else ('+%d%s' % (n, u.upper()) if n > 0 else '%d%s' % (n, u.upper()))
+    if rng.random() < 0.1:
+        txt += '%d%s' % (rng.choice([-2, 1, 3]), rng.choice('bd'))
+    return '(b (p %s))' % hexs(txt), n * NOMINAL[u] / 86400.0
+
+
+def _ep_date(rng, today):
+    r = rng.random()
+    if r < 0.5:
+        t = today + TD(days=rng.randint(-700, 700)) + (TD(hours=rng.choice([0, 0, 9, 23]), minutes=rng.choice([0, 30])))
+        return '(d %d)' % dt2us(t), (t - today) / DAY
+    if r < 0.75:
+        y = today.year + rng.randint(-2, 2)
+        return '(n %d)' % y, (D(y, 1, 1) - today) / DAY
+    t = today + TD(days=rng.randint(-700, 700))
+    return '(n %d)' % (t.year * 10000 + t.month * 100 + t.day), (t - today) / DAY
+
+
+def endpoint_cases(rng, n):
+    for _ in range(n):
+        today = rand_start(rng, True)
+        k = rng.random()
+        # (e0, e1) and the signed span in days (roughly), as date_range resolves them
+        if k < 0.3:       # date, bump: [t0, t0 + b]
+            (e0, off0), (e1, d1) = _ep_date(rng, today), _ep_bump(rng)
+            span = d1
+        elif k < 0.45:    # bump, date: [t1 + b, t1]
+            (e0, d0), (e1, off1) = _ep_bump(rng), _ep_date(rng, today)
+            span = -d0
+        elif k < 0.6:     # bump, bump: both from today
+            (e0, d0), (e1, d1) = _ep_bump(rng), _ep_bump(rng)
+            span = d1 - d0
+        elif k < 0.7:     # date, date
+            (e0, o0), (e1, o1) = _ep_date(rng, today), _ep_date(rng, today)
+            span = o1 - o0
+        elif k < 0.8:     # bump / date, None: sorted with today
+            e0, d0 = _ep_bump(rng) if rng.random() < 0.6 else _ep_date(rng, today)
+            e1, span = 'N', abs(d0)
+        elif k < 0.9:     # None, bump / date: from TMIN (long: only the range itself and coarse steps)
+            e0 = 'N'
+            e1, d1 = _ep_bump(rng) if rng.random() < 0.5 else _ep_date(rng, today)
+            span = (today - TMIN) / DAY + d1
+        else:
+            e0, e1, span = 'N', 'N', (today - TMIN) / DAY
+        yield dict(tag='date_range', lines=['(drange range %d %s %s)' % (dt2us(today), e0, e1)])
+        sg = 1 if span >= 0 else -1
+        if abs(span) > 4000:
+            steps = ['(int %d)' % (1461 * sg), '(p %s)' % hexs('%dw' % (200 * sg))]      # no month-based step: the start's day of month is not under control
+        elif abs(span) > 500:
+            steps = ['(p %s)' % hexs('%dw' % (4 * sg)), '(int %d)' % (30 * sg), '(p %s)' % hexs('%db' % (20 * sg))]
+        else:
+            steps = ['N', '(int %d)' % sg, '(int %d)' % (7 * sg), '(p %s)' % hexs('%db' % sg), '(p %s)' % hexs('%dd' % (2 * sg)),
+                     '(p %s)' % hexs('%dw' % sg), '(td %d)' % (sg * 86400 * 10 ** 6), '(td %d)' % (sg * 36 * 3600 * 10 ** 6), '(p %s)' % hexs('%db' % (3 * sg))]
+        st = rng.choice(steps)
+        if rng.random() < 0.07 and st != 'N':      # now and then pointing away: ValueError
+            st = st.replace(' -', ' ') if sg < 0 else st
+        yield dict(tag='endpoints', lines=['(drange rune %d %s %s %s)' % (dt2us(today), e0, e1, st)])
+
+
 def generate(rng, tier):
+    for case in _generate(rng, tier):
+        yield case
+    for case in endpoint_cases(rng, 500 if tier == 'quick' else 8000):
+        yield case
+
+
+def _generate(rng, tier):
     n = 4000 if tier == 'quick' else 250000
     # dt_bump self-test of the local model (every unit letter, both signs, compounds)
     lines = []
@@ -236,6 +366,10 @@ def generate(rng, tier):
     for _ in range(n):
         spec = rand_spec(rng)
         yield dict(tag=spec['kind'], lines=[line_of(spec)])
+        if rng.random() < 0.12:
+            ln = respell_endpoints(rng, spec, line_of(spec))
+            if ln is not None:
+                yield dict(tag=spec['kind'] + '/objects', lines=[ln])
     # Calendar.drange with a bump that does not end in 'b' is plain drange
     for _ in range(n // 20):
         spec = rand_spec(rng)
@@ -262,6 +396,9 @@ def dec_bump(x):
         return getattr(np, x[1])(int(x[2]))
     if x[0] == 'td':
         return TD(microseconds=int(x[1]))
+    if x[0] == 'tdpd':
+        import pandas as pd
+        return pd.Timedelta(microseconds=int(x[1]))
     return unhex(x[1])
 
 
@@ -280,9 +417,47 @@ def run_line(state, sx):
         res2 = pyg_base.drange(us2dt(int(args[0])), us2dt(int(args[1])), dec_bump(args[2]))
         out2 = 'ok (L' + ''.join(' T:%d' % dt2us(t) if isinstance(t, datetime.datetime) else ' S:%s' % proto.hexs(str(t)) for t in res2) + ')'
         return out if out2 == out else 'again ' + out2[3:]
+    if op in ('rune', 'range'):
+        from pyg_base import _dates
+        today = us2dt(int(args[0]))
+
+        def dec_ep(x):
+            if x == 'N':
+                return None
+            if x[0] == 'b':
+                return dec_bump(x[1])
+            if x[0] == 'd':
+                return us2dt(int(x[1]))
+            if x[0] == 'n':
+                return int(x[1])
+            raise ValueError(x)
+        e0, e1 = dec_ep(args[1]), dec_ep(args[2])
+        saved = _dates.today
+        _dates.today = lambda date=None: (today if date is None else saved(date))      # pin the clock: dt(0) = today() + 0 days
+        try:
+            if pyg_base.dt(0) != today:
+                raise AssertionError('dt(0) does not read _dates.today')
+            res = pyg_base.date_range(e0, e1) if op == 'range' else pyg_base.drange(e0, e1, dec_bump(args[3]))
+        finally:
+            _dates.today = saved
+        if not isinstance(res, list):
+            raise proto.Unencodable('returned %r' % type(res))
+        return 'ok (L' + ''.join(' T:%d' % dt2us(as_datetime(t)) for t in res) + ')'
+    if op == 'runas':
+        t0, t1 = as_kind(args[0], us2dt(int(args[2]))), as_kind(args[1], us2dt(int(args[3])))
+        res = pyg_base.drange(t0, t1, dec_bump(args[4]))
+        if not isinstance(res, list):
+            raise proto.Unencodable('drange returned %r' % type(res))
+        return 'ok (L' + ''.join(' T:%d' % dt2us(as_datetime(t)) for t in res) + ')'
     if op == 'crun':
         from pyg_base._drange import Calendar
-        cal = state.get('cal') or state.setdefault('cal', Calendar(None, t0=D(2000, 1, 1), t1=D(2001, 1, 1)))
+        # a bump that is not a 'kb' string delegates to drange whatever the calendar holds: three calendars (round k3; until then one
+        # holiday-free calendar) - plain, Fri-Sat weekend with holidays, Sunday-only weekend with a dense holiday run - chosen by the start day
+        cals = state.get('cals') or state.setdefault('cals', [
+            Calendar(None, t0=D(2000, 1, 1), t1=D(2001, 1, 1)),
+            Calendar(None, holidays=[D(2000, 1, 3), D(2000, 5, 1), D(2000, 12, 25)], weekend=[4, 5], t0=D(2000, 1, 1), t1=D(2001, 1, 1)),
+            Calendar(None, holidays=[D(2000, 3, 1) + TD(i) for i in range(40)], weekend=6, t0=D(1999, 1, 1), t1=D(2002, 1, 1))])
+        cal = cals[(int(args[0]) // (86400 * 10 ** 6)) % 3]
         res = cal.drange(us2dt(int(args[0])), us2dt(int(args[1])), dec_bump(args[2]))
         return 'ok (L' + ''.join(' T:%d' % dt2us(t) for t in res) + ')'
     if op == 'bump':
@@ -306,7 +481,7 @@ def compare(case, i, line, ir, mr):
 
 
 def nontrivial(line, reply):
-    if not (line.startswith('(drange run') or line.startswith('(drange crun')):
+    if not (line.startswith('(drange run') or line.startswith('(drange crun')):     # 'runas' included
         return False
     return reply == 'err ValueError' or (reply.startswith('ok') and reply.count('T:') >= 2)
 
